@@ -391,7 +391,7 @@ def shuffled(items, rng):
 def out_of_subset(gen, rng):
     """One grammar-valid specification using a construct outside the supported subset.  Returns (items, tag)."""
     items, meta = gen.supported(ndecl=2 + rng.below(3))
-    c = rng.below(13)
+    c = rng.below(16)
     tag = ""
     s = {"k": "struct", "name": gen.fresh("s"), "fields": [{"ty": "int", "name": "a", "arr": None, "opt": False}]}
     if c == 0:
@@ -445,6 +445,39 @@ def out_of_subset(gen, rng):
         tag = "primitive-name-as-union-arm"
         items.append({"k": "union", "name": gen.fresh("u"), "swty": "int", "swvar": "d", "arms": [
             {"labels": ["1"], "body": {"ty": "int", "name": rng.choice(["u32", "bool"]), "arr": None}}]})
+    elif c == 12:
+        tag = "enum-member-as-bound"
+        m = gen.fresh("M")
+        items.append({"k": "enum", "name": gen.fresh("en"), "members": [[m, "2"]]})
+        form = rng.below(4)
+        if form == 0:
+            s["fields"].append({"ty": rng.choice(["int", "opaque", s["name"]]), "name": "xs", "arr": ["fixed", m], "opt": False})
+        elif form == 1:
+            s["fields"].append({"ty": rng.choice(["string", "opaque", s["name"]]), "name": "xs", "arr": ["var", m], "opt": False})
+        elif form == 2:
+            items.append({"k": "typedef", "ty": rng.choice(["opaque", s["name"]]), "name": gen.fresh("t"), "arr": ["var", m]})
+        else:
+            items.append({"k": "typedef", "ty": rng.choice(["opaque", "int", s["name"]]), "name": gen.fresh("t"), "arr": ["fixed", m]})
+        items.append(s)
+    elif c == 13:
+        tag = "names-used-across-kinds"
+        # a type name where a constant is expected, a constant where a type is expected, an enum name as a label
+        e = gen.fresh("en")
+        items.append({"k": "enum", "name": e, "members": [[gen.fresh("M"), "1"]]})
+        k = gen.fresh("K")
+        items.append({"k": "const", "name": k, "val": "2"})
+        s["fields"].append({"ty": k, "name": "c", "arr": None, "opt": False})
+        s["fields"].append({"ty": "int", "name": "d", "arr": ["fixed", s["name"]], "opt": False})
+        items.append(s)
+        items.append({"k": "union", "name": gen.fresh("u"), "swty": k, "swvar": "sw", "arms": [{"labels": [e, s["name"]], "body": {"ty": "int", "name": "x", "arr": None}}]})
+    elif c == 14:
+        tag = "degenerate-declarations"
+        items.append({"k": "struct", "name": gen.fresh("s"), "fields": []})
+        items.append({"k": "union", "name": gen.fresh("u"), "swty": "int", "swvar": "d", "arms": []})
+        items.append({"k": "union", "name": gen.fresh("u"), "swty": "int", "swvar": "d", "arms": [{"default": True, "labels": [], "body": "void"}]})
+        items.append({"k": "union", "name": gen.fresh("u"), "swty": "int", "swvar": "d", "arms": [{"labels": ["1", "2"], "body": None}]})
+        items.append({"k": "enum", "name": gen.fresh("en"), "members": [[gen.fresh("M"), rng.choice(["2147483648", "4294967296", "99999999999999999999", "007"])]]})
+        items.append({"k": "typedef", "ty": "int", "name": gen.fresh("t"), "arr": ["var", rng.choice(["4294967296", "0", "00"])]})
     else:
         tag = "var-array-of-primitive"
         s["fields"].append({"ty": rng.choice(["int", "uint32_t", "string"]), "name": "xs", "arr": ["var", ""], "opt": False})
@@ -458,8 +491,15 @@ def mutate_text(text, rng):
     toks = re.findall(r"\s+|/\*.*?\*/|//[^\n]*\n?|[A-Za-z0-9_]+|.", text, re.S)
     if not toks:
         return text
-    c = rng.below(6)
+    c = rng.below(7)
     i = rng.below(len(toks))
+    if c == 6:
+        # replace one identifier by another identifier of the same text (names used across kinds)
+        ids = [j for j, t in enumerate(toks) if re.fullmatch(r"[A-Za-z_][A-Za-z0-9_]*", t)]
+        if len(ids) >= 2:
+            a, b = rng.choice(ids), rng.choice(ids)
+            toks[a] = toks[b]
+        return "".join(toks)
     if c == 0:
         del toks[i]
     elif c == 1:
